@@ -885,6 +885,10 @@ def plan(ctx):
     for r in range(ctx.n(3, 30)):
         A, C = counts_from_assignments(ctx.rng, 2 + (r % 5))
         out.append((C.astype(float), 'assigns_to_counts', 'coo+assigns', True, A))
+    # one state (outside `Conn`; Props.C12.one_state): T = [[1]], pi = [1]
+    out.append((np.array([[3.]]), 'one-state', None, True))
+    out.append((np.array([[0.7]]), 'one-state', 'csr', False))
+    out.append((np.array([[5.]]), 'one-state', 'coo+dups', True))
     # hand-picked edges
     out.append((np.array([[0., 1.], [1., 0.]]), 'zero-diag', 'csr', True))
     out.append((np.array([[0., 2.], [1., 0.]]), 'zero-diag', None, True))
